@@ -41,6 +41,7 @@ fn channel_trace(sys: &Sys) -> String {
     let mut ctx = String::new();
     for o in &log {
         match o {
+            Ob::WireLen(n) => wire.push_str(&format!("{}B:", n)),
             Ob::Wire(p) => wire.push_str(&format!("{:?};", p)),
             Ob::WireErr(e) => wire.push_str(&format!("ERR {};", e)),
             Ob::Done { op, res } => ops[*op].push_str(res),
